@@ -346,6 +346,97 @@ def replay_journal(body):
         shutil.rmtree(d, ignore_errors=True)
 
 
+def replay_meta(body):
+    """kill-point enumeration on the real MetaStorer.storeMeta: the k-th primitive file operation (open / write / flush / close /
+    os.remove / os.rename / shutil.move ...) is the last one to happen before the process dies; the .meta file is then read back"""
+    import builtins
+    import pysyncobj.journal as J
+
+    class Kill(BaseException):
+        pass
+
+    d = tempfile.mkdtemp(prefix='replay_meta_')
+    bad = []
+    try:
+        for existed in (False, True):
+            k = 0
+            while True:
+                k += 1
+                path = os.path.join(d, 'j_%d_%d.meta' % (existed, k))
+                ms = J.MetaStorer(path)
+                if existed:
+                    ms.storeMeta({'raftCommitIndex': 5})
+                count = [0]
+
+                def tick():
+                    count[0] += 1
+                    if count[0] == k:
+                        raise Kill()
+
+                class F(object):
+                    def __init__(self, f):
+                        self.f = f
+
+                    def write(self, b):
+                        # a kill can also tear a write: only the first half reaches the file
+                        half = b[:len(b) // 2]
+                        count[0] += 1
+                        if count[0] == k:
+                            self.f.write(half)
+                            self.f.flush()
+                            raise Kill()
+                        return self.f.write(b)
+
+                    def __getattr__(self, n):
+                        return getattr(self.f, n)
+
+                    def __enter__(self):
+                        return self
+
+                    def __exit__(self, *a):
+                        self.f.close()
+                        return False
+
+                real = dict(open=builtins.open, remove=os.remove, unlink=os.unlink, rename=os.rename, replace=os.replace, move=shutil.move)
+
+                def wrap(fn):
+                    def g(*a, **kw):
+                        r = fn(*a, **kw)
+                        tick()
+                        return r
+                    return g
+
+                def my_open(*a, **kw):
+                    f = real['open'](*a, **kw)
+                    if len(a) > 1 and 'w' in a[1]:
+                        tick()
+                        return F(f)
+                    return f
+                J.open = my_open
+                os.remove, os.unlink, os.rename, os.replace, shutil.move = (wrap(real[n]) for n in ('remove', 'unlink', 'rename', 'replace', 'move'))
+                killed = False
+                try:
+                    ms.storeMeta({'raftCommitIndex': 9})
+                except Kill:
+                    killed = True
+                finally:
+                    del J.open
+                    os.remove, os.unlink, os.rename, os.replace, shutil.move = (real[n] for n in ('remove', 'unlink', 'rename', 'replace', 'move'))
+                got = J.MetaStorer(path).getMeta().get('raftCommitIndex', 1)
+                allowed = (5, 9) if existed else (1, 9)
+                if got not in allowed:
+                    bad.append('meta existed=%s, killed after file operation #%d: commit index read back = %r, allowed %r' % (existed, k, got, allowed))
+                if not killed:
+                    if got != 9:
+                        bad.append('completed storeMeta read back as %r' % (got,))
+                    break
+        for b in bad:
+            out(b)
+        return (1 if bad else 0), ('a kill inside storeMeta leaves a commit index that was never set' if bad else 'every kill point leaves the old or the new meta')
+    finally:
+        shutil.rmtree(d, ignore_errors=True)
+
+
 # ------------------------------------------------------------------------------------------------ batteries
 def replay_battery(body):
     import pysyncobj.batteries as B
@@ -386,6 +477,7 @@ REPLAYERS = {
     'tcp.parse': replay_tcp_parse,
     'ResizableFile.write': replay_journal, 'FileJournal.add': replay_journal, 'FileJournal.reopen': replay_journal,
     'FileJournal.deleteEntriesFrom': replay_journal, 'FileJournal.clear': replay_journal,
+    'MetaStorer.storeMeta': replay_meta,
 }
 
 
